@@ -18,7 +18,7 @@ META = {
         "every flavour, from a thread payload that drives a private event loop), services (created before / after "
         "start / inside payloads) or executed (from outside threads, thread payloads and payloads of the other "
         "coroutine flavour), each alternating synchronous sections (overlap detector, context probe) and "
-        "checkpoints; 0-4 thread payloads blocking for 0.6 s, sometimes a crowd of 40-130 of them while coroutine payloads adopt more, adoption of thread payloads while thread creation fails (injected fault); payloads parked on an awaitable only they reference while another thread runs a garbage collection; foreign threads adopting coroutine payloads while a shielded trio cleanup keeps the runtime in its shutdown phase; line-level delay injection. The identity check "
+        "checkpoints; 0-4 thread payloads blocking for 0.6 s (waiting, or - 10 % of the scenarios - computing in a pure Python loop), a thread payload with a trio run of its own whose worker thread calls execute(flavour=trio), sometimes a crowd of 40-130 of them while coroutine payloads adopt more, adoption of thread payloads while thread creation fails (injected fault); payloads parked on an awaitable only they reference while another thread runs a garbage collection; foreign threads adopting coroutine payloads while a shielded trio cleanup keeps the runtime in its shutdown phase; line-level delay injection. The identity check "
         "(one thread + one loop / one trio run per flavour over the whole run) is deterministic, the overlap "
         "detector a probabilistic second line. Non-trivial = both flavours had >= 2 payloads; distinct by shape."
     ),
@@ -142,6 +142,19 @@ def gen_case(rnd, spec):
                 gen["payloads"].append(small)
                 ops += [["adopt", small["id"]], ["sleep", 0.06]]
             gen["payloads"].append({"id": new("chatty"), "flavour": fl, "when": "queued", "program": ops + [["beat", 0.02, None]], "cleanup": {"kind": "none"}})
+    # a thread payload that blocks by computing (it never releases the interpreter voluntarily)
+    if rnd.random() < 0.1:
+        gen["payloads"].append({"id": new("burner"), "flavour": "threading", "when": "queued", "cleanup": {"kind": "none"},
+                                "program": [["sleep", 0.05], ["burn", 0.6]]})
+        gen.setdefault("tags", []).append("compute_bound_thread_payload")
+    # a thread payload with a trio run of its own whose worker thread executes a trio payload in the runtime
+    if rnd.random() < 0.25:
+        p = {"id": new("viaforeign"), "flavour": "trio", "executed": True, "cleanup": {"kind": "none"},
+             "program": [["ctx"], ["crit", 300], ["sleep", 0.01], ["crit", 300], ["return", "str"]]}
+        gen["payloads"].append(p)
+        gen["payloads"].append({"id": new("foreigntrio"), "flavour": "threading", "when": "queued", "cleanup": {"kind": "none"},
+                                "program": [["sleep", 0.03], ["private_trio_execute", [p["id"]]]]})
+        gen.setdefault("tags", []).append("execute_from_foreign_trio_worker")
     # the same thread payload (the very same callable) adopted a second time by coroutine payloads while its first run still blocks
     if rnd.random() < 0.3:
         again = {"id": new("again"), "flavour": "threading", "when": "queued", "program": [["ctx"], ["block", 0.6]], "cleanup": {"kind": "none"}}
@@ -278,14 +291,36 @@ def judge(case, run, result):
             if e["th"] in (homes["asyncio"]["th"], homes["trio"]["th"]):
                 problems.append(("%s thread payload %s ran on the %s loop thread" % (role, e["pid"], "asyncio" if e["th"] == homes["asyncio"]["th"] else "trio"), None))
             result.count("steps_%s_threading" % role)
+    burning = bool(run.of("block-start", gen=0, how="burn"))  # a computing thread slows every loop turn: no pause criterion then
+    g0, g1 = run.first("generation", gen=0), run.first("generation-end", gen=0)
+    if g0 and g1 and g0.get("switchinterval") != g1.get("switchinterval"):
+        problems.append(("the interpreter's thread switch interval changed from %r to %r while the runtime ran: a thread payload that computes "
+                         "now holds up every other thread that long" % (g0.get("switchinterval"), g1.get("switchinterval")), None))
     for s in run.of("block-start", gen=0):
         end = [e for e in run.of("block-end", gen=0, pid=s["pid"])]
         if not end or end[0]["t"] - s["t"] < 0.5:
+            continue
+        if s.get("how") == "burn":
+            # compute-bound: every other thread now pays the interpreter's switch interval (5 ms) for each time it needs the
+            # interpreter - a loop turn needs it several times, the injected yields even more. How slow that makes the loops is
+            # CPython's business; what is asserted (above) is that the runtime leaves the switch interval untouched
+            ended = run.first("accept-ended", gen=0)
+            if ended is not None and ended["seq"] < end[0]["seq"]:
+                continue
+            for fl in common.COROUTINE:
+                # recorded, not judged: which of several waiting threads gets the interpreter next is up to the OS - a loop can
+                # go without it for the whole 0.6 s (seen on the unchanged tree)
+                beats = [e for e in run.of("beat", gen=0, pid="heart_" + fl) if s["seq"] < e["seq"] < end[0]["seq"]]
+                result.count("heartbeats_during_computing", len(beats))
+            result.count("compute_bound_thread_payloads_observed")
             continue
         ended = run.first("accept-ended", gen=0)
         if ended is not None and ended["seq"] < end[0]["seq"]:
             result.count("blocking_windows_cut_short_by_runtime_end")
             continue  # the runtime ended while the thread was blocked: heartbeats legitimately stop
+        if burning:
+            result.count("blocking_windows_not_judged_beside_a_computing_thread")
+            continue
         ticks = [e for e in run.of("tick", gen=0) if s["seq"] < e["seq"] < end[0]["seq"]]
         if len(ticks) < 15:
             # even a plain thread sleeping 10 ms at a time hardly ran in these 0.6 s: the machine is starved,
@@ -350,7 +385,8 @@ def run_shard(spec):
 def finish(total, tier):
     need = ["synchronous_sections_checked", "blocking_thread_payloads_observed", "heartbeats_during_blocking", "scenarios_with_foreign_loop_submitter",
             "steps_adopted_threading", "sections_that_adopt_checked", "blocking_executes_observed", "scenarios_with_crowd", "scenarios_with_no_threads",
-            "scenarios_with_parked_payloads_and_gc", "scenarios_with_thread_payload_adopted_again_while_running", "synchronous_first_sections_of_plain_callables_checked", "scenarios_with_shutdown_window", "payload_endings_checked"]
+            "scenarios_with_parked_payloads_and_gc", "scenarios_with_thread_payload_adopted_again_while_running", "scenarios_with_compute_bound_thread_payload", "compute_bound_thread_payloads_observed",
+            "scenarios_with_execute_from_foreign_trio_worker", "synchronous_first_sections_of_plain_callables_checked", "scenarios_with_shutdown_window", "payload_endings_checked"]
     need += ["steps_%s_%s" % (r, f) for r in ("adopted", "service", "executed") for f in common.COROUTINE]
     for name in need:
         if not total.counters.get(name) and not total.violations:
